@@ -73,7 +73,7 @@ inductive APc
   | okSet                   -- ServeConn: after `changeStatus(statusOk)`
   | okSpawned               -- ServeConn: after `AnywayGo(startReadAndHandle)`
   | lisHub                  -- listener: after `sessHub.set`
-  | lisSet                  -- listener: after `changeStatus(statusOk)`
+  | lisSet                  -- listener: after `tryChangeStatus(statusOk, statusPreparing)` succeeded
   | done (st : Int)         -- returned with status code `st`
   deriving DecidableEq, Repr
 
@@ -236,7 +236,10 @@ def evAccStep (s : St) : Option St :=
   match s.acc with
   | .okSet => some { s with rd := some .top, acc := .okSpawned }
   | .okSpawned => some { s with inHub := true, acc := .done 0 }
-  | .lisHub => some { s with status := .ok, acc := .lisSet }
+  | .lisHub =>
+    -- `if !sess.tryChangeStatus(statusOk, statusPreparing) { p.sessHub.delete(sess.ID(), sess); return }`
+    if s.status = .preparing then some { s with status := .ok, acc := .lisSet }
+    else some { s with inHub := false, acc := .done 0 }
   | .lisSet => some { s with rd := some .top, acc := .done 0 }
   | .rejClosing st => if s.closer.isSome then none else some { s with acc := .done st }
   | _ => none
